@@ -163,6 +163,48 @@ theorem C05_dump_read_needs_info :
   ⟨exEnv, [100, 101], [(.str "info", .dict [])], by rfl, by rfl,
    ok_of_toOption (by decide +kernel), rfl⟩
 
+/-- `private` must be 0/1: the canonical `d4:infod7:privatei2eee` is re-written with `i1e`
+    (the setter stores `bool(value)`). -/
+theorem C05_dump_read_needs_private :
+    ∃ x, (parseStrict rtEnv.lim x).isSome = true ∧
+      ¬ ∃ t, read rtEnv x true = .ok t ∧ dump rtEnv t true = .ok x :=
+  ⟨[100, 52, 58, 105, 110, 102, 111, 100, 55, 58, 112, 114, 105, 118, 97, 116, 101, 105, 50, 101,
+    101, 101], by decide +kernel, fun ⟨_, hr, hd⟩ => by
+    have h := readDump_of hr hd
+    have h2 : readDump rtEnv [100, 52, 58, 105, 110, 102, 111, 100, 55, 58, 112, 114, 105, 118, 97,
+      116, 101, 105, 50, 101, 101, 101] true = some [100, 52, 58, 105, 110, 102, 111, 100, 55, 58,
+      112, 114, 105, 118, 97, 116, 101, 105, 49, 101, 101, 101] := by decide +kernel
+    rw [h2] at h
+    exact absurd h (by decide)⟩
+
+/-- the creation date must be an integer: in the canonical `d13:creation date0:4:infodee` the
+    falsy non-int value is silently dropped by the setter, the dump is `d4:infodee`. -/
+theorem C05_dump_read_needs_date :
+    ∃ x, (parseStrict rtEnv.lim x).isSome = true ∧
+      ¬ ∃ t, read rtEnv x true = .ok t ∧ dump rtEnv t true = .ok x :=
+  ⟨[100, 49, 51, 58, 99, 114, 101, 97, 116, 105, 111, 110, 32, 100, 97, 116, 101, 48, 58, 52, 58,
+    105, 110, 102, 111, 100, 101, 101], by decide +kernel, fun ⟨_, hr, hd⟩ => by
+    have h := readDump_of hr hd
+    have h2 : readDump rtEnv [100, 49, 51, 58, 99, 114, 101, 97, 116, 105, 111, 110, 32, 100, 97,
+      116, 101, 48, 58, 52, 58, 105, 110, 102, 111, 100, 101, 101] true =
+      some [100, 52, 58, 105, 110, 102, 111, 100, 101, 101] := by decide +kernel
+    rw [h2] at h
+    exact absurd h (by decide)⟩
+
+/-- `pieces` must not contain a dictionary (a byte string in every valid torrent): it is put
+    back un-decoded, and `encode_dict` refuses the `bytes` keys of
+    `d4:infod6:piecesd1:ai0eeee` — `dump()` raises `MetainfoError`. -/
+theorem C05_dump_read_needs_pieces :
+    ∃ x, (parseStrict rtEnv.lim x).isSome = true ∧
+      ¬ ∃ t, read rtEnv x true = .ok t ∧ dump rtEnv t true = .ok x :=
+  ⟨[100, 52, 58, 105, 110, 102, 111, 100, 54, 58, 112, 105, 101, 99, 101, 115, 100, 49, 58, 97,
+    105, 48, 101, 101, 101, 101], by decide +kernel, fun ⟨_, hr, hd⟩ => by
+    have h := readDump_of hr hd
+    have h2 : readDump rtEnv [100, 52, 58, 105, 110, 102, 111, 100, 54, 58, 112, 105, 101, 99, 101,
+      115, 100, 49, 58, 97, 105, 48, 101, 101, 101, 101] true = none := by decide +kernel
+    rw [h2] at h
+    exact absurd h (by decide)⟩
+
 /-- non-vacuity of `C05_dump_read` / `C05_read_encodes`: the document `rtX` (multi-byte key `é`,
     non-UTF-8 pieces and value, private 1, creation date 5, nested containers) satisfies every
     hypothesis and `read_stream` accepts it -/
